@@ -78,6 +78,26 @@ def strategy(draw):
                 dt_jitter=dt_jitter)
 
 
+BIG = {"quick": 16, "thorough": 160}
+
+
+@st.composite
+def strategy_big(draw):
+    """Long windows: 1-3 windows of 2^15 .. 2^20 samples; STA of 1 sample .. a sixth of the window."""
+    case = draw(strategy())
+    n = draw(gen.big_size(2 ** 15, 2 ** 20))
+    dt = case["dt"]
+    nwin = draw(st.sampled_from([1, 2, 3]))
+    ks = draw(st.one_of(gen.big_size(2, max(3, n // 6)), st.integers(2, 50)))
+    sta = ks * dt * draw(st.sampled_from([1.0, 1.0, 1.3]))
+    ml = draw(st.integers(int(math.ceil(sta / dt)) + 1, int(n * 0.95)))
+    case.update(n=n, windows=case["windows"][:nwin], peakless=case["peakless"][:nwin], sta=sta, lta=ml * dt * draw(st.sampled_from([1.0, 1.004])), big=True)
+    while len(case["windows"]) < nwin:
+        case["windows"].append(case["windows"][0])
+        case["peakless"].append(False)
+    return case
+
+
 def _chunks(x, ks, ml):
     n = len(x)
     if ks < 1 or ks > n or ml < 1 or ml > n:
@@ -117,7 +137,7 @@ def check_case(case):
     arrays = [expand_window(w, n) for w in case["windows"]]
     nwin = len(arrays)
     comps = tuple(case["components"])
-    labels = [f"ncomp={len(comps)}"]
+    labels = [f"ncomp={len(comps)}"] + (["big-2^%d-samples" % int(math.log2(n))] if case.get("big") else [])
 
     jit = dict(zip(COMPS, case.get("dt_jitter") or [0.0, 0.0, 0.0]))
     if case.get("dt_jitter"):
